@@ -36,6 +36,7 @@ def file_name(lang, crate):
 
 STYLE_TICK = [0]
 CONST_CRATE = [False]
+PARAM_TICK = [0]
 
 
 FORCED = {"use": 0.2, "use-group": 0.5, "glob": 0.6, "as": 0.7, "use-reexport": 0.8, "qualified-in-generic": 0.9}
@@ -117,6 +118,16 @@ def make_workspace(rng, ncrates, force=None):
             f["items"].append({"kind": "struct", "attrs": [m_path("typeshare")], "ident": hn, "generics": [],
                                "fields": ("named", [field([], "held", shape)])})
             mine = mine + [hn]
+        # names are only names: another item of the same file may call one of its *generic parameters* like an imported type
+        # (`struct Page<Item> { items: Vec<Item> }` next to `struct Cart { first: Item }`) - the import the other items need stays
+        PARAM_TICK[0] += 1
+        if ext and (force or PARAM_TICK[0] % 3 == 0):
+            oc, w = ext[PARAM_TICK[0] % len(ext)]
+            if style.get(w) in ("use", "use-group", "as", "glob", "use-reexport"):
+                k = len(f["items"])
+                f["items"].append({"kind": "struct", "attrs": [m_path("typeshare")], "ident": "Page%d" % k, "generics": [("ty", w)],
+                                   "fields": ("named", [field([], "items", t_path("Vec", [t_path(w)])), field([], "total", t_path("u32"))])})
+                mine = mine + ["Page%d" % k]
         sub = rng.choice(["", "models/", "a/b/"])
         # the crate is the directory above the *last* `src` component: some crates live under another crate's `src`
         top = c if rng.random() < 0.75 else "outer%d/src/%s" % (len(files), c)
